@@ -11,7 +11,7 @@ git -C /repo worktree add --detach $WT HEAD -q || exit 2
 trap 'git -C /repo worktree remove --force $WT >/dev/null 2>&1' EXIT
 DEMOS="$*"
 [ -z "$DEMOS" ] && DEMOS=$(cd $SRC && ls *_test.go 2>/dev/null)
-for d in $DEMOS; do cp $SRC/$d $WT/$PKG/ || exit 2; done
+mkdir -p $WT/$PKG; for d in $DEMOS; do cp $SRC/$d $WT/$PKG/ || exit 2; done
 cd $WT
 run_demo() { go test $DEMOFLAGS -vet=off -count=1 -run "$PAT" ./$PKG/ >/tmp/cf-$ID.demo.log 2>&1; }
 run_demo; r0=$?
